@@ -43,8 +43,12 @@ ProofMenu(st, old, b, n) ==
 
 GoodReq(old, b, n, e, s, x, pf) ==
     [auth |-> "good", old |-> old, b |-> b, n |-> n, extra |-> e, stale |-> s, ext |-> x, pf |-> pf]
-BadReq(a, n) ==
-    [auth |-> a, old |-> 0, b |-> 0, n |-> n, extra |-> 0, stale |-> 0, ext |-> 0, pf |-> Empty]
+BadReqO(a, n, o) ==
+    [auth |-> a, old |-> o, b |-> 0, n |-> n, extra |-> 0, stale |-> 0, ext |-> 0, pf |-> Empty]
+BadReq(a, n) == BadReqO(a, n, 0)
+\* old sizes a note that is NOT the log's is submitted with: 0, and the size the witness holds (with the text it holds, this is the
+\* re-submission of the current checkpoint in everything but the signature: it is refused like any other)
+BadOlds(st) == {0} \cup (IF st # None THEN {st.n} ELSE {})
 
 Init == /\ stored = [l \in Logs |-> None]
         /\ last = [a |-> "init"]
@@ -83,7 +87,7 @@ NextUpdate ==
        LET st == IF l \in Logs THEN stored[l] ELSE None IN
        \/ \E old \in Olds, b \in Branch, n \in Size, e \in Extras, s \in Stales, x \in Exts :
              \E pf \in ProofMenu(st, old, b, n) : Update(l, GoodReq(old, b, n, e, s, x, pf))
-       \/ \E a \in BadAuths, n \in Size : Update(l, BadReq(a, n))
+       \/ \E a \in BadAuths, n \in Size, o \in BadOlds(st) : Update(l, BadReqO(a, n, o))
 
 (***************************************************************************)
 (* The environment between two requests.  None of these steps is taken by  *)
